@@ -66,6 +66,8 @@ pub mod proposal;
 pub mod proto;
 pub mod scan;
 pub mod scanning;
+#[cfg(zcash_librustzcash_verif)]
+pub mod verif_hooks;
 pub mod wallet;
 
 #[cfg(any(feature = "sync", feature = "sync-decryptor"))]
